@@ -875,6 +875,15 @@ pub fn run(scn: &Scenario, world: &mut dyn WorldOps, opts: &ExecOpts) -> RunRepo
 
 fn run_steps(cx: &mut Ctx, scn: &Scenario) -> Result<(), Violation> {
     // initial state must be sane too
+    for s in 0..3 {
+        if !cx.snaps[s].exists {
+            let mut v = cx.viol(Class::EvMismatch, -2, None, 0, format!("constructing an empty vector on {} panicked", cx.info.be_of(s).label()));
+            v.op = Op::New;
+            v.on_stack = cx.info.be_of(s).on_stack();
+            v.panic_involved = true;
+            return Err(v);
+        }
+    }
     cx.check_common(-2, None, 0)?;
     for (si, st) in scn.steps.iter().enumerate() {
         let step = si as i32;
@@ -1032,6 +1041,16 @@ fn run_steps(cx: &mut Ctx, scn: &Scenario) -> Result<(), Violation> {
         } else {
             cx.check_strict(step, &p, &obs)?;
             let panicked = obs.last() == Some(&Ev::Panic);
+            let built = (m1.builds + m1.builds_sized) - (m0.builds + m0.builds_sized);
+            if !panicked && built != p.builds as u64 {
+                return Err(cx.viol(
+                    Class::MemEnv,
+                    step,
+                    Some(&p),
+                    0,
+                    format!("storage was requested from the back end {} time(s) in this step, expected {} (once per vector instance)", built, p.builds),
+                ));
+            }
             cx.cap_post(step, &p, &before_snaps, m0, a0, panicked)?;
         }
     }
